@@ -443,8 +443,8 @@ func SRTDial(addr string, streamID string, publish bool, cr Creds) (*Client, srt
 
 // udpRelay forwards datagrams between one client and the server. The server sees the relay's outgoing socket.
 type udpRelay struct {
-	in   *net.UDPConn // the client talks to this one
-	out  *net.UDPConn // connected to the server
+	in     *net.UDPConn // the client talks to this one
+	out    *net.UDPConn // connected to the server
 	done   chan struct{}
 	upDone chan struct{}
 	once   sync.Once
